@@ -12,16 +12,37 @@ from kanirun import VERIF, BUILD
 REPLAYS = os.path.join(VERIF, "replays")
 
 
-def extract_playback(txt):
-    """Parse the unit test Kani prints with --concrete-playback=print."""
-    m = re.search(r"(#\[test\]\s*fn kani_concrete_playback_[\s\S]*?\n\})", txt)
-    if not m:
+def extract_playback(txt, want_descs=()):
+    """Parse the unit tests Kani prints with --concrete-playback=print (one per failed check AND per
+    satisfied cover) and pick the one that belongs to a failed check (matching description first)."""
+    blocks = []
+    for part in txt.split("Concrete playback unit test for")[1:]:
+        m = re.search(r"(#\[test\]\s*fn kani_concrete_playback_[\s\S]*?\n\})", part)
+        if not m:
+            continue
+        km = re.search(r"/// Check for `([^`]*)`: \"(.*)\"", part)
+        kind, desc = (km.group(1), km.group(2)) if km else ("?", "")
+        code = m.group(1)
+        vals = []
+        for vm in re.finditer(r"//\s*(.+)\n\s*vec!\[([0-9,\s]*)\]", code):
+            vals.append({"value": vm.group(1).strip(), "bytes": [int(x) for x in vm.group(2).replace(" ", "").split(",") if x]})
+        blocks.append({"kind": kind, "desc": desc, "test_code": code, "values": vals})
+    if not blocks:
         return None
-    code = m.group(1)
-    vals = []
-    for vm in re.finditer(r"//\s*(.+)\n\s*vec!\[([0-9,\s]*)\]", code):
-        vals.append({"value": vm.group(1).strip(), "bytes": [int(x) for x in vm.group(2).replace(" ", "").split(",") if x]})
-    return {"test_code": code, "values": vals}
+    def norm(d):
+        return d.strip().strip('"')
+    wants = [norm(d) for d in want_descs]
+    for b in blocks:
+        if b["kind"] != "cover" and any(w and (w in norm(b["desc"]) or norm(b["desc"]) in w) for w in wants):
+            return b
+    for b in blocks:
+        if b["kind"] != "cover":
+            return b
+    # only cover traces exist (e.g. the violation is a sentinel cover that was reached)
+    for b in blocks:
+        if any(w and w in norm(b["desc"]) for w in wants):
+            return b
+    return None
 
 
 def confirm(prop, case, group, work, bad, plan):
@@ -42,7 +63,7 @@ def confirm(prop, case, group, work, bad, plan):
     t0 = time.time()
     p = subprocess.run(cmd, cwd=work, env=env, capture_output=True, text=True, preexec_fn=kanirun._limit)
     out = p.stdout + p.stderr
-    pb = extract_playback(out)
+    pb = extract_playback(out, [b["desc"].replace("sentinel reached: ", "") for b in bad])
     rec = {
         "property": prop, "harness": case.name, "body": case.body, "unwind": case.unwind, "macro": case.harness_macro,
         "crate": group.crate, "variant": group.variant, "rustflags": group.rustflags, "features": group.features,
